@@ -324,6 +324,49 @@ def documented_route_oracle(run, tmp):
                                    flag, tag.upper(), " ".join(argv), conf_lines[0], str(d)[:300]), case)
 
 
+# fixed mixed runs: the conf file holds a tag that _set_settings handles after (and that touches the same public
+# settings attributes as) the setting given on the command line; the option must supersede it.
+# (file lines, option argv, public attributes compared with the option-only run, commands)
+PRECEDENCE = [
+    (["DOS_RANGE = 0 8 0.1"], ["--fpitch", "0.05"], ["frequency_pitch"], ("phonopy", "load")),
+    (["TDISP = .TRUE."], ["-t"], ["is_thermal_properties", "is_thermal_displacements", "is_thermal_displacement_matrices", "is_thermal_distances"], ("phonopy", "load")),
+    (["TDISPMAT = .TRUE."], ["-t"], ["is_thermal_properties", "is_thermal_displacements", "is_thermal_displacement_matrices", "is_thermal_distances"], ("phonopy", "load")),
+    (["TDISPMAT_CIF = 300"], ["-t"], ["is_thermal_properties", "is_thermal_displacements", "is_thermal_displacement_matrices", "is_thermal_distances"], ("phonopy", "load")),
+    (["TDISTANCE = 1 2"], ["-t"], ["is_thermal_properties", "is_thermal_displacements", "is_thermal_displacement_matrices", "is_thermal_distances"], ("phonopy", "load")),
+    (["QPOINTS = 0 0 0"], ["--mesh", "2", "2", "2"], ["run_mode"], ("phonopy", "load")),
+    (["QPOINTS = .TRUE."], ["--band", "0", "0", "0", "1/2", "0", "0"], ["run_mode"], ("phonopy", "load")),
+    (["ANIME = 0 0 0"], ["--mesh", "2", "2", "2"], ["run_mode"], ("phonopy", "load")),
+    (["MODULATION = 1 1 1, 0 0 0 1 1"], ["--band", "0", "0", "0", "1/2", "0", "0"], ["run_mode"], ("phonopy", "load")),
+    (["IRREPS = 0 0 0"], ["--mesh", "2", "2", "2"], ["run_mode"], ("phonopy", "load")),
+    (["BAND = 0 0 0 1/2 0 0"], ["--mesh", "2", "2", "2"], ["run_mode"], ("phonopy", "load")),
+    (["MESH = 2 2 2"], ["--band", "0", "0", "0", "1/2", "0", "0"], ["run_mode"], ("phonopy", "load")),
+    (["INCLUDE_ALL = .TRUE."], ["--exclude-born"], ["include_nac_params"], ("load",)),
+]
+
+
+def precedence_oracle(run, tmp):
+    """documented rule (doc/setting-tags.md, doc/command-options.md): a command-line option supersedes the
+    configuration-file tags — on the public settings attributes the option decides, the mixed run must equal the
+    option-only run"""
+    P = Parser(run, None, tmp)
+    for lines, argv, attrs, variants in PRECEDENCE:
+        for variant in variants:
+            mixed = P.real(variant, lines=lines, argv=argv)
+            alone = P.real(variant, lines=None, argv=argv)
+            run.case(("precedence", variant, tuple(lines), tuple(argv)), nontrivial=True)
+            run.count("oracle option supersedes file tag (fixed mixed runs)", section="oracle")
+            if mixed.kind != "ok" or alone.kind != "ok":
+                if mixed.kind != alone.kind:
+                    _violation(run, SITE, "option-does-not-supersede-file-tag", "conf %s + `%s`: %s (%s); the option alone: %s" % (
+                        lines, " ".join(argv), mixed.kind, mixed.detail, alone.kind), dict(variant=variant, conf=lines, argv=argv))
+                continue
+            d = {a: [U.plain(mixed.settings[a]), U.plain(alone.settings[a])] for a in attrs if U.canon(mixed.settings[a]) != U.canon(alone.settings[a])}
+            if d:
+                _violation(run, SITE, "option-does-not-supersede-file-tag",
+                           "conf file %s with `%s` on the command line: the option does not supersede the file's tag: %s (mixed run, option alone)" % (
+                               lines, " ".join(argv), d), dict(variant=variant, conf=lines, argv=argv, differing=d))
+
+
 def _is_zero(text):
     try:
         return float(text) == 0
@@ -689,6 +732,7 @@ def main(run):
 
         # the route oracle that needs neither the generated table nor the Lean side runs first
         _stage(run, "documented route oracle", documented_route_oracle, run, tmp)
+        _stage(run, "option supersedes file tag", precedence_oracle, run, tmp)
         from . import c18_keys as K
 
         _stage(run, "per-key value parsers vs model", K.key_checks, run, tmp)
@@ -714,6 +758,8 @@ def main(run):
         _stage(run, "settings contradicting the input yaml", W.override_flows, run, tmp, run.rng, thorough)
         os.chdir(tmp)
         _stage(run, "boundary values through the workflows", W.boundary_flows, run, tmp, flows[0], tb, run.rng, thorough)
+        os.chdir(tmp)
+        _stage(run, "mixed conf file + options through main", W.precedence_flows, run, tmp, flows[0])
         os.chdir(tmp)
         _stage(run, "run-mode decision", W.decision_checks, run, tmp, flows[0], run.rng, thorough)
     finally:
